@@ -56,6 +56,7 @@ def run(tier, seed):
                     hv = [x + shift for x in h]
                     if all(oracle.bitlen(x) if hasattr(oracle, "bitlen") else core.bitlen(x) <= 40 for x in hv):
                         op["spec"]["init"] = [float(x) for x in hv]
+                        op["spec"]["init_dtype"] = "float64"
                         op["_tags"] = op["_tags"] + ["targeted:init=bias+const"]
     impls = core.run_impl_parallel([(ops, d) for ops, d in jobs], workers=W)
     lines, meta = [], []
